@@ -122,19 +122,37 @@ int pipe_poll(pipe_event_source *sources, size_t num_sources, int timeout)
     goto finish;
   }
 
+  // Only pass the valid pipes to `poll`. `poll` ignores negative file
+  // descriptors but still counts them: with more entries than `RLIMIT_NOFILE`
+  // it fails with `EINVAL` even though (almost) all of them are unused slots.
+  nfds_t num_pollfds = 0;
+
   for (size_t i = 0; i < num_sources; i++) {
-    pollfds[i].fd = sources[i].pipe;
-    pollfds[i].events = sources[i].interests;
+    if (sources[i].pipe == PIPE_INVALID) {
+      continue;
+    }
+
+    pollfds[num_pollfds].fd = sources[i].pipe;
+    pollfds[num_pollfds].events = sources[i].interests;
+    num_pollfds++;
   }
 
-  r = poll(pollfds, (nfds_t) num_sources, timeout);
+  r = poll(pollfds, num_pollfds, timeout);
   if (r < 0) {
     r = -errno;
     goto finish;
   }
 
+  num_pollfds = 0;
+
   for (size_t i = 0; i < num_sources; i++) {
-    sources[i].events = pollfds[i].revents;
+    if (sources[i].pipe == PIPE_INVALID) {
+      sources[i].events = 0;
+      continue;
+    }
+
+    sources[i].events = pollfds[num_pollfds].revents;
+    num_pollfds++;
   }
 
 finish:
